@@ -267,6 +267,22 @@ def sibling_groups(defs):
     return [ds for ds in by.values() if len(ds) > 1]
 
 
+def harvested_byte_literals(min_len=2, max_len=16):
+    """Only the BYTE literals of the code under test (what a receive path compares wire data with), in full and by prefix."""
+    try:
+        from . import harvest
+        c = harvest.constants()
+    except Exception:  # noqa: BLE001
+        return []
+    out = set()
+    for b in c["bytes"]:
+        if min_len <= len(b) <= max_len:
+            out.add(b)
+        for k in range(max(3, min_len), min(len(b), max_len + 1)):
+            out.add(b[:k])
+    return sorted(out)
+
+
 def harvested_byte_strings(min_len=2, max_len=16):
     """Byte strings the code under test mentions literally (bytes and ASCII str literals), and their prefixes of 4+ bytes."""
     try:
